@@ -4,7 +4,7 @@ SPEC = {
     "parts": [part("c07_totalforce", "plain", ["c07_totalforce.cpp"], timeout={"quick": 1500, "thorough": 7200})],
     "rule": "13 component definitions (distance, oneSiteTotalForce, distanceZ, distanceXY, angle, dihedral, gyration, rmsd with and without atomPermutation, "
             "eigenvector, distance +/- distance) plus 8 definitions that need not support total forces (inertia, inertiaZ, groupCoord, coordNum, dummy first/second "
-            "group with and without oneSiteTotalForce: refused at configuration time, or held to the same statement) x 2 (thorough 3) geometries of 7 atoms with non-uniform masses x T in {0,300} x "
+            "group with and without oneSiteTotalForce: refused at configuration time, or held to the same statement) x 3 (thorough 5) geometries of 7 atoms with non-uniform masses x T in {0,300} x "
             "hideJacobian x subtractAppliedForce x {lagged, same-step}: a 4-step history with a different, closed-form bias "
             "force at each step is fed back as the engine's total forces; plus every one of the 3N unit atomic force fields "
             "and 4 combinations (linearity, atoms outside the groups), plus the Jacobian term against the finite-difference "
